@@ -133,7 +133,7 @@ type sparser struct {
 }
 
 func (p *sparser) peek() tok { return p.ts[p.i] }
-func (p *sparser) next() tok  { t := p.ts[p.i]; p.i++; return t }
+func (p *sparser) next() tok { t := p.ts[p.i]; p.i++; return t }
 func (p *sparser) isOp(s string) bool {
 	t := p.peek()
 	return t.k == "op" && t.s == s
@@ -355,13 +355,21 @@ func (c *Clause) name() string {
 }
 
 type GhostMakeChan struct {
-	Ord int
-	Tag *SExpr
+	Ord   int
+	Tag   *SExpr
+	Class string
+}
+
+type ChanClass struct {
+	Name   string
+	ID     int
+	MsgInv *Clause
 }
 
 type FuncSpec struct {
 	Key       string
 	Requires  []*Clause
+	Captures  []*Clause // closure preconditions over captured variables: proved where the closure is created
 	Ensures   []*Clause
 	LoopInv   map[int][]*Clause
 	AtCall    []*Clause // asserted at matching call sites
@@ -370,8 +378,8 @@ type FuncSpec struct {
 	HasMod    bool
 	MakeChans []GhostMakeChan
 	Pure      bool
-	Trusted   bool // contract assumed at call sites but body not verified (must be listed)
-	Inline    bool // force inlining even though contract exists
+	Trusted   bool     // contract assumed at call sites but body not verified (must be listed)
+	Inline    bool     // force inlining even though contract exists
 	Owns      []*SExpr // channels whose closedness this function owns
 	Holds     []string // lock keys that are held on entry (…Locked functions)
 	File      string
@@ -379,9 +387,9 @@ type FuncSpec struct {
 }
 
 type LockSpec struct {
-	Key    string // client.RpcMultiplexer.mutex
-	Guards []string // field names of the same struct that are havoced on Lock (scalars) / maps (contents)
-	Inv    []*Clause
+	Key      string   // client.RpcMultiplexer.mutex
+	Guards   []string // field names of the same struct that are havoced on Lock (scalars) / maps (contents)
+	Inv      []*Clause
 	Teardown bool
 }
 
@@ -411,19 +419,22 @@ type LemmaSpec struct {
 }
 
 type Specs struct {
-	Funcs  map[string]*FuncSpec
-	Locks  map[string]*LockSpec
-	Fields map[string]*FieldSpec
-	Chans  map[string]*ChanSpec
-	Lemmas []*LemmaSpec
-	Files  []string
-	NClauses int
+	Funcs     map[string]*FuncSpec
+	Locks     map[string]*LockSpec
+	Fields    map[string]*FieldSpec
+	Chans     map[string]*ChanSpec
+	ObjInvs   map[string][]*Clause
+	Classes   map[string]*ChanClass
+	ClassList []*ChanClass
+	Lemmas    []*LemmaSpec
+	Files     []string
+	NClauses  int
 }
 
 var labelRe = regexp.MustCompile(`^([a-z_-]+)(?:\[([^\]]*)\])?\s*(.*)$`)
 
 func readSpecs(dir string) (*Specs, error) {
-	sp := &Specs{Funcs: map[string]*FuncSpec{}, Locks: map[string]*LockSpec{}, Fields: map[string]*FieldSpec{}, Chans: map[string]*ChanSpec{}}
+	sp := &Specs{Funcs: map[string]*FuncSpec{}, Locks: map[string]*LockSpec{}, Fields: map[string]*FieldSpec{}, Chans: map[string]*ChanSpec{}, Classes: map[string]*ChanClass{}, ObjInvs: map[string][]*Clause{}}
 	var files []string
 	filepath.Walk(dir, func(path string, info os.FileInfo, err error) error {
 		if err != nil {
@@ -510,6 +521,15 @@ func (sp *Specs) readFile(path string) error {
 			}
 			sp.Funcs[rest] = cur
 			curLock, curLemma = nil, nil
+		case "captures":
+			if cur == nil {
+				return fail("captures outside func")
+			}
+			c, err := mk("captures", rest)
+			if err != nil {
+				return err
+			}
+			cur.Captures = append(cur.Captures, c)
 		case "requires", "ensures":
 			if curLemma != nil {
 				e, err := parseSpecExpr(rest)
@@ -614,11 +634,17 @@ func (sp *Specs) readFile(path string) error {
 				return fail("bad makechan")
 			}
 			n, _ := strconv.Atoi(f[0])
-			e, err := parseSpecExpr(strings.TrimSpace(strings.SplitN(rest, "tag", 2)[1]))
+			tagText := strings.TrimSpace(strings.SplitN(rest, " tag ", 2)[1])
+			class := ""
+			if i := strings.Index(tagText, " class "); i >= 0 {
+				class = strings.TrimSpace(tagText[i+7:])
+				tagText = strings.TrimSpace(tagText[:i])
+			}
+			e, err := parseSpecExpr(tagText)
 			if err != nil {
 				return fail("%v", err)
 			}
-			cur.MakeChans = append(cur.MakeChans, GhostMakeChan{n, e})
+			cur.MakeChans = append(cur.MakeChans, GhostMakeChan{n, e, class})
 		case "lock":
 			// lock <Type.field> [teardown] guards a, b
 			f := strings.Fields(rest)
@@ -683,6 +709,35 @@ func (sp *Specs) readFile(path string) error {
 				cs.MsgInv = c
 			}
 			sp.Chans[f[0]] = cs
+		case "objinv":
+			// objinv[labels] <Type> : expr   (self = pointer to the object)
+			i := strings.Index(rest, ":")
+			if i < 0 {
+				return fail("objinv needs ':'")
+			}
+			tn := strings.TrimSpace(rest[:i])
+			c, err := mk("objinv", strings.TrimSpace(rest[i+1:]))
+			if err != nil {
+				return err
+			}
+			c.Func = "objinv " + tn
+			sp.ObjInvs[tn] = append(sp.ObjInvs[tn], c)
+		case "chanclass":
+			// chanclass <name> msg: expr
+			i := strings.Index(rest, " msg:")
+			if i < 0 {
+				return fail("chanclass needs msg:")
+			}
+			name := strings.TrimSpace(rest[:i])
+			cc := &ChanClass{Name: name, ID: len(sp.ClassList) + 1}
+			c, err := mk("msginv", strings.TrimSpace(rest[i+5:]))
+			if err != nil {
+				return err
+			}
+			c.Func = "chanclass " + name
+			cc.MsgInv = c
+			sp.Classes[name] = cc
+			sp.ClassList = append(sp.ClassList, cc)
 		case "lemma":
 			// lemma[labels] name : forall (x Sort, y Sort)
 			curLemma = &LemmaSpec{Labels: labels, File: path, Line: l.n}
